@@ -67,6 +67,12 @@ func (c c02cfg) monitorConfig(id string) *MonitorConfig {
 	if c.Names {
 		mc.NameSelector = &kemtypes.NameSelector{MatchNames: []string{"a"}}
 	}
+	if c.NsMode == "field" {
+		// several names AND a field selector: one informer per name, each with the binding's own
+		// field selector plus its name (namespace n1 chosen by field, all namespaces watched)
+		mc.NameSelector = &kemtypes.NameSelector{MatchNames: []string{"b", "a"}}
+		mc.FieldSelector = &kemtypes.FieldSelector{MatchExpressions: []kemtypes.FieldSelectorRequirement{{Field: "metadata.namespace", Operator: "Equals", Value: "n1"}}}
+	}
 	return mc
 }
 
@@ -208,6 +214,9 @@ func (w *c02world) reference(c c02cfg) []string {
 			continue
 		}
 		if c.Names && parts[1] != "a" {
+			continue
+		}
+		if c.NsMode == "field" && (parts[0] != "n1" || (parts[1] != "a" && parts[1] != "b")) {
 			continue
 		}
 		ids = append(ids, id)
@@ -388,6 +397,7 @@ func TestVerifC02a(t *testing.T) {
 		cfgs = append(cfgs, c02cfg{nm, false, true, true}, c02cfg{nm, false, true, false})
 	}
 	cfgs = append(cfgs, c02cfg{"names2", false, false, true}, c02cfg{"names2", false, true, false})
+	cfgs = append(cfgs, c02cfg{"field", false, false, true}, c02cfg{"field", false, true, false})
 	r.Bound("history_depth", depth)
 	r.Bound("op_alphabet", len(alpha))
 	r.Bound("monitor_configurations", len(cfgs))
